@@ -218,6 +218,17 @@ theorem repeatText_length (t : Text) (n : Nat) : (repeatText t n).length = t.len
   | zero => simp [repeatText]
   | succ m ih => simp [repeatText, ih, Nat.mul_succ]; omega
 
+/-! ### paste with a non-positive count -/
+
+/-- `paste_clipboard_data(count <= 0)` returns the document itself -/
+theorem pasteRaw_nonpos (b : Buf) (d : Clip) (mode : PasteMode) (count : Int) (h : count ≤ 0) :
+    pasteRaw b d mode count = (b.text, (b.cur : Int)) := by
+  unfold pasteRaw; rw [if_pos h]
+
+theorem rep_nonpos (t : Text) (count : Int) (h : count ≤ 0) : rep t count = [] := by
+  have : count.toNat = 0 := by omega
+  simp [rep, this, repeatText]
+
 /-! ### `str.split(sep)` / `sep.join` -/
 
 theorem splitOn_ne_nil (c : Char) (t : Text) : splitOn c t ≠ [] := by
